@@ -65,5 +65,55 @@ pub fn checks() -> Vec<Check> {
             "values come from finite catalogues (boundaries, walking bits, float specials), not all 2^64 payloads",
         ],
         budget_s: (45, 900),
+    },
+    Check {
+        id: "C06",
+        level: "model_checking",
+        stages: vec![
+            st("c06.product", c06::product, (0, 0), 3, "full product: blob length 0..=1023 x all 255 aligned start residues"),
+            st("c06.long", c06::long, (0, 0), 3, "multi-page lengths 1020k+d (k=1..3, d=-20..20), 65535, 65536, 200000 x 16 residues x 3 fill patterns"),
+            st("c06.neighbours", c06::neighbours, (0, 0), 3, "all programs of depth <=3 over blobs, every image kind with/without mask, cloud; unique payload patterns"),
+            st("c06.tamper", c06::tamper, (0, 0), 3, "crafted descriptors (length -1,+1,+3,+4,+16,+17,+5000,2^63,2^64-1) x section-length patches x 51 residues x 7 lengths"),
+        ],
+        extra: None,
+        rule: "every (length, start residue) pair of the product and every program of the neighbour space is written by the real writer and read by the real reader; distinct = distinct file bytes; non-trivial = at least one non-empty payload compared byte by byte",
+        assumptions: &[
+            "tampering clause in its weakest sound form: any descriptor yields Err or exactly `length` bytes equal to the logical bytes after the 16-byte header",
+        ],
+        budget_s: (45, 900),
+    },
+    Check {
+        id: "C10",
+        level: "model_checking",
+        stages: vec![
+            st("c10.protos_short", c10::protos_short, (0, 0), 3, "all prototypes of length <=2 over 25 names x 14 types"),
+            st("c10.protos_base", c10::protos_base, (0, 0), 3, "valid base (XYZ f32 | spherical f64) + <=2 extra records over 25 names x 14 types"),
+            st("c10.protos_mutated", c10::protos_mutated, (0, 0), 3, "catalogue prototypes with one record deleted / duplicated / retyped"),
+            st("c10.values", c10::values, (0, 0), 3, "unstorable value (9 kinds) at every position 0..8 of a 9-point cloud x 8 integer types x 2 record slots"),
+            st("c10.orders", c10::orders, (0, 0), 3, "all sequences of depth <=3 (quick) / <=4 (thorough) over 15 API sessions incl. misuse x 3 finalize modes"),
+        ],
+        extra: None,
+        rule: "every prototype / value / call-order case of the stated products is executed on the real writer under catch_unwind; expected verdicts come from a plain predicate of the documented rules; non-trivial = all calls succeeded and the file was read back and compared",
+        assumptions: &[
+            "T2 demands rejection only for the classes the statement lists (arity, type, integer range, documented prototype rules incl. max<min, extension names)",
+            "prototype shapes the documentation does not forbid (duplicate names) are judged by no-panic and read-back only",
+            "API misuse outside the listed classes (add_point after finalize, second finalize) is judged by no-panic and by read-back of whatever finalize reported as success",
+        ],
+        budget_s: (45, 900),
+    },
+    Check {
+        id: "C14",
+        level: "model_checking",
+        stages: vec![st(
+            "c14.bounds",
+            c14::bounds,
+            (2, 3),
+            3,
+            "48 attribute-group subsets x 4 sequence kinds; <=2 (quick) / <=3 (thorough) deviations over types, value sets, limit overrides and per-attribute value orders (all 6 orders of 3 distinct values)",
+        )],
+        extra: None,
+        rule: "deviation-bounded DFS: all cases with at most d non-default choices; bounds compared numerically with an independent fold over the harness's point list; non-trivial = cloud with points",
+        assumptions: &["NaN coordinates are excluded (min/max over NaN is not defined by the statement)", "partial limit overrides are not judged"],
+        budget_s: (45, 900),
     }]
 }
